@@ -24,12 +24,12 @@ Bad(c) ==
   ELSE CASE c.c = "fcn" ->
          LET d == FcnDirection(c.wF, c.wC, c.wN, c.af, c.a, c.ap, c.k, c.tr, c.tw) IN
          IF d = 0 THEN (IF Len(c.ords) # 0 THEN "fcn-orders-without-expected-move" ELSE "")
-         ELSE IF Len(c.ords) # 1 THEN "fcn-order-count"
-         ELSE LET o == c.ords[1] IN
-              IF o[3] # (d > 0) THEN "fcn-direction"
-              ELSE IF o[2] # c.mkt THEN "fcn-market"
-              ELSE IF o[5] # 1 \/ o[6] # c.ttl THEN "fcn-volume-or-lifetime"
-              ELSE IF ~c.pok THEN "fcn-price" ELSE ""
+         \* one order per accessible market (c.mks, all in the same state here), in the order of the markets
+         ELSE IF Len(c.ords) # Len(c.mks) THEN "fcn-order-count"
+         ELSE IF \E i \in 1..Len(c.ords) : c.ords[i][3] # (d > 0) THEN "fcn-direction"
+         ELSE IF \E i \in 1..Len(c.ords) : c.ords[i][2] # c.mks[i] THEN "fcn-market"
+         ELSE IF \E i \in 1..Len(c.ords) : c.ords[i][5] # 1 \/ c.ords[i][6] # c.ttl THEN "fcn-volume-or-lifetime"
+         ELSE IF ~c.pok THEN "fcn-price" ELSE ""
     [] c.c = "mm" ->
          LET q == MmQuotes(c.bests, c.tpx, c.fund, c.sn, c.sd) IN
          IF Len(c.ords) # 2 THEN "mm-order-count"
